@@ -129,6 +129,16 @@ HPutBack ==
         /\ Mark({})
   /\ UNCHANGED <<pend, nmsg, alive, tvars, cmap, viol, sc, psize, txm, owner, txconn>>
 
+\* The harness reached a point at which the design model says these clients hold no server connection (they are between
+\* transactions, their replies have arrived): the pooler's own bookkeeping must agree.
+HSettle ==
+  /\ E.ev = "settle"
+  /\ LET stuck == {c \in Clients : (\E i \in 1..Len(E.idle) : E.idle[i] = c) /\ held[c] # NONE}
+         bad1 == txm /\ stuck # {}
+     IN /\ IF bad1 THEN Report("idle_client_holds_server", [clients |-> stuck, conns |-> {held[c] : c \in stuck}]) ELSE TRUE
+        /\ Mark(IF bad1 THEN {"idle_client_holds_server"} ELSE {})
+  /\ UNCHANGED <<vars, sc, psize, txm, owner, txconn>>
+
 HServerDrop ==
   /\ E.ev = "server_drop"
   /\ LET s == E.s
@@ -227,10 +237,10 @@ BResult ==
 
 Step ==
   /\ l <= Len(Rec)
-  /\ l' = l + 1
+  /\ l' = l + 1 /\ vanished' = vanished   \* the trace records what happened; who is gone is known from client_drop / closing
   /\ \/ Reset
      \/ HServerConnect \/ HCheckout \/ HClaim \/ HMapRemove \/ HPutBack \/ HServerDrop
-     \/ HCancelLookup \/ HEnd
+     \/ HCancelLookup \/ HEnd \/ HSettle
      \/ BExec \/ BClosing \/ BSessionEnd \/ BResult
 
 TSpec == TInit /\ [][Step]_allvars
